@@ -1,8 +1,8 @@
 /* Block builder induction steps + encoder/decoder inverse lemmas.
  * Real code: mtbl/block_builder.c and mtbl/block.c (both included: statics visible), varint.c, fixed.c (linked), ubuf/vector.
  * Harnesses start from an ARBITRARY builder state satisfying the builder invariant (hence any earlier history). */
-#include "/repo/mtbl/block_builder.c"
-#include "/repo/mtbl/block.c"
+#include "mtbl/block_builder.c"
+#include "mtbl/block.c"
 #include "spec/ghost.h"
 /* Vector growth is excluded from this capped harness (the buffers are created large enough): realloc is a cut point.
  * If a run reaches it the auxiliary obligation below fails (=> undecided, never silent).  Growth itself: group vec_grow. */
